@@ -107,6 +107,12 @@ def listSet {α : Type} (l : List α) (i : Int) (v : α) : Except Err (List α) 
   else if -i ≤ (l.length : Int) then .ok (l.set (l.length - (-i).toNat) v)
   else .error .indexError
 
+/-- `a, b, c = l`: exactly three entries, else ValueError -/
+def unpack3 {α : Type} (l : List α) : Except Err (α × α × α) :=
+  match l with
+  | [a, b, c] => .ok (a, b, c)
+  | _ => .error .valueError
+
 /-- `v = l.pop()`: the last element and the list without it; IndexError when empty -/
 def pop {α : Type} (l : List α) : Except Err (α × List α) :=
   match l.getLast? with
